@@ -330,7 +330,7 @@ MC_LatY == IF WithKKT THEN HalfLattice(-4, 4) ELSE {}
 (* ------------------------------ export --------------------------------- *)
 MaxDen == 65536
 \* stop exploring an instance once its lattice is finer than snapping can resolve
-DenBound == DenState(ref) <= (IF Len(inst.Ls) > 1 /\ inst.solver \in {"dr", "fb"} THEN MaxDen ELSE MaxDen * 64)
+DenBound == DenState(ref) <= (IF Len(inst.Ls) > 1 /\ inst.solver \in {"dr", "fb"} THEN 4096 ELSE MaxDen * 64)
             \* (several operators with different sigma_i: the next step needs more headroom in 32 bits)
 
 ExportLine ==
